@@ -95,6 +95,14 @@ pub(crate) fn headers_try_from_hook(block: &[u8]) -> Result<Headers, RequestErro
 // ---------------------------------------------------------------------------------------------
 use crate::verif_params::{K as PK, M as PM, N as PN};
 
+fn at(s: &[u8], i: usize) -> u8 {
+    if i < s.len() {
+        s[i]
+    } else {
+        0
+    }
+}
+
 fn is_ws(b: u8) -> bool {
     // Unicode White_Space restricted to ASCII: TAB, LF, VT, FF, CR, SP
     (b >= 9 && b <= 13) || b == b' '
@@ -214,43 +222,62 @@ fn ref_u32(v: &[u8]) -> Option<u32> {
     Some(acc as u32)
 }
 
-// @harness props=C15,C02,C03,C04 tiers=quick:N=3|N=11;thorough:N=0|N=1|N=2|N=3|N=5|N=9|N=10|N=11|N=12 unwind=N+18 cap=1800 mem=10 covers=3
+const CL_PREFIX: [&[u8]; 4] = [b"", b"429496729", b" +00", b"42949672"];
+
+fn no_colon(s: &[u8]) -> bool {
+    let mut i = 0;
+    while i < s.len() {
+        if s[i] == b':' {
+            return false;
+        }
+        i += 1;
+    }
+    true
+}
+
+// @harness props=C15,C02,C03,C04 tiers=quick:K=0,N=2|K=1,N=1|K=1,N=2;thorough:K=0,N=1|K=0,N=2|K=0,N=3|K=1,N=1|K=1,N=2|K=2,N=2|K=3,N=3 unwind=34 cap=1500 mem=10 covers=3
 // @fn Headers::parse_header_line Header::try_from
+// @stubs std::str::from_utf8(model:RFC3629-validator) core::slice::memchr::memchr(model:first-index-loop)
 // @claim `Content-Length:<value>`: accepted iff the value, after trimming whitespace, is an optional '+' followed by decimal digits denoting a number <= 2^32-1, and then the stored length is that number; otherwise InvalidValue and the stored length is unchanged
-// @bounds value of exactly N arbitrary ASCII bytes (N=11 reaches 4294967296 and beyond); previous stored length arbitrary
-// @stubs std::str::from_utf8(model:RFC3629-validator)
+// @bounds value = concrete prefix K (``, `429496729`, ` +00`, `42949672`) followed by N arbitrary ASCII bytes other than ':' (K=1 reaches 4294967295 / 4294967296 and 11-digit numbers); previous stored length arbitrary
 #[kani::proof]
 #[kani::stub(std::str::from_utf8, crate::request::verif_kani::from_utf8_stub)]
 #[kani::stub(core::slice::memchr::memchr, crate::request::verif_kani::memchr_stub)]
 fn c15_content_length_value() {
-    let mut line = [0u8; 15 + PN];
+    const PL: usize = CL_PREFIX[PK % 4].len();
+    let mut line = [0u8; 15 + PL + PN];
     let name = b"Content-Length:";
     let mut i = 0;
     while i < 15 {
         line[i] = name[i];
         i += 1;
     }
+    i = 0;
+    while i < PL {
+        line[15 + i] = CL_PREFIX[PK % 4][i];
+        i += 1;
+    }
     let v: [u8; PN] = kani::any();
-    kani::assume(all_ascii(&v));
+    kani::assume(all_ascii(&v) && no_colon(&v));
     i = 0;
     while i < PN {
-        line[15 + i] = v[i];
+        line[15 + PL + i] = v[i];
         i += 1;
     }
     let mut h = Headers::default();
     let prev: u32 = kani::any();
     h.content_length = prev;
     let r = h.parse_header_line(&line);
-    match ref_u32(&v) {
+    match ref_u32(&line[15..]) {
         Some(n) => {
             assert!(r.is_ok(), "[C15,C02] well-formed Content-Length rejected");
             assert!(h.content_length == n, "[C15,C02,C04] stored Content-Length differs from the decimal value");
-            kani::cover!(PN < 10 || n == u32::MAX, "largest accepted value");
+            kani::cover!(PK % 4 != 1 || n == u32::MAX, "largest accepted value");
         }
         None => {
             assert!(matches!(r, Err(RequestError::HeaderError(HttpHeaderError::InvalidValue(_, _)))), "[C15,C02] malformed or out-of-range Content-Length not rejected with InvalidValue");
             assert!(h.content_length == prev, "[C15] rejected Content-Length changed the stored value");
-            kani::cover!(PN < 10 || (v[0] == b'4' && v[9] == b'6'), "just above the range");
+            kani::cover!(PK % 4 != 1 || at(&v[..], 0) == b'6', "just above the range");
         }
     }
     assert!(!h.expect && !h.chunked && h.custom_entries.len() == 0);
@@ -261,44 +288,60 @@ fn c15_content_length_value() {
 
 const VNAMES: [&[u8]; 4] = [b"Expect:", b"Transfer-Encoding:", b"Content-Type:", b"Accept:"];
 
-// @harness props=C15,C13,C03 tiers=quick:M=0,N=13|M=1,N=8|M=3,N=11;thorough:M=0,N=12|M=0,N=13|M=0,N=14|M=1,N=7|M=1,N=8|M=1,N=9|M=2,N=10|M=2,N=17|M=3,N=10|M=3,N=11|M=3,N=16|M=3,N=17 unwind=N+20 cap=1800 mem=10 covers=2
+const TOKENS: [&[u8]; 7] = [
+    b"100-continue",
+    b"chunked",
+    b"identity",
+    b"text/plain",
+    b"application/json",
+    b"100-continuE",
+    b"text/plain2",
+];
+
+// @harness props=C15,C13,C16,C03 tiers=quick:M=0,K=0|M=1,K=1|M=3,K=3|M=3,K=4;thorough:M=0,K=0|M=0,K=5|M=1,K=1|M=1,K=2|M=2,K=3|M=2,K=4|M=3,K=3|M=3,K=4|M=3,K=6|M=0,K=3 unwind=36 cap=1500 mem=10 covers=2
 // @fn Headers::parse_header_line Header::try_from MediaType::try_from
-// @claim Expect / Transfer-Encoding / Content-Type / Accept with an arbitrary value: a supported value (100-continue; chunked, identity; text/plain, application/json - modulo surrounding whitespace) has its documented effect and nothing else changes; every other value is reported as UnsupportedValue and changes nothing
-// @bounds header M in {Expect, Transfer-Encoding, Content-Type, Accept}; value of exactly N arbitrary ASCII bytes
-// @stubs std::str::from_utf8(model:RFC3629-validator)
+// @stubs std::str::from_utf8(model:RFC3629-validator) core::slice::memchr::memchr(model:first-index-loop)
+// @claim Expect / Transfer-Encoding / Content-Type / Accept: a supported value (100-continue; chunked, identity; text/plain, application/json - modulo surrounding whitespace only) has its documented effect and nothing else changes; every other value is reported as UnsupportedValue and changes nothing
+// @bounds header M in {Expect, Transfer-Encoding, Content-Type, Accept}; value = one arbitrary byte, the concrete token K with its first byte replaced by an arbitrary byte, one arbitrary byte (all three ASCII, not ':'); tokens: the five supported ones plus two near misses
 #[kani::proof]
 #[kani::stub(std::str::from_utf8, crate::request::verif_kani::from_utf8_stub)]
 #[kani::stub(core::slice::memchr::memchr, crate::request::verif_kani::memchr_stub)]
 fn c15_flag_values() {
+    const NL: usize = VNAMES[PM % 4].len();
+    const TL: usize = TOKENS[PK % 7].len();
     let name = VNAMES[PM % 4];
-    let nl = name.len();
-    let mut line = [0u8; 18 + PN];
+    let tok = TOKENS[PK % 7];
+    let mut line = [0u8; NL + TL + 2];
     let mut i = 0;
-    while i < nl {
+    while i < NL {
         line[i] = name[i];
         i += 1;
     }
-    let v: [u8; PN] = kani::any();
-    kani::assume(all_ascii(&v));
+    let sym: [u8; 3] = kani::any();
+    kani::assume(all_ascii(&sym) && no_colon(&sym));
+    line[NL] = sym[0];
     i = 0;
-    while i < PN {
-        line[nl + i] = v[i];
+    while i < TL {
+        line[NL + 1 + i] = tok[i];
         i += 1;
     }
+    line[NL + 1] = sym[1];
+    line[NL + 1 + TL] = sym[2];
+    let v = &line[NL..];
     let mut h = Headers::default();
     let e0: bool = kani::any();
     let c0: bool = kani::any();
     h.expect = e0;
     h.chunked = c0;
     let a0 = h.accept;
-    let r = h.parse_header_line(&line[..nl + PN]);
-    let (a, e) = trim_ws(&v);
+    let r = h.parse_header_line(&line);
+    let (a, e) = trim_ws(v);
     let t = &v[a..e];
     let mut want_ok = false;
     let mut want_expect = e0;
     let mut want_chunked = c0;
     let mut want_accept = a0;
-    match PM {
+    match PM % 4 {
         0 => {
             if eqb(t, b"100-continue") {
                 want_ok = true;
@@ -316,27 +359,27 @@ fn c15_flag_values() {
         _ => {
             if eqb(t, b"text/plain") {
                 want_ok = true;
-                if PM == 3 {
+                if PM % 4 == 3 {
                     want_accept = MediaType::PlainText;
                 }
             } else if eqb(t, b"application/json") {
                 want_ok = true;
-                if PM == 3 {
+                if PM % 4 == 3 {
                     want_accept = MediaType::ApplicationJson;
                 }
             }
         }
     }
     if want_ok {
-        assert!(r.is_ok(), "[C15,C13] supported header value rejected");
-        kani::cover!(true, "supported value");
+        assert!(r.is_ok(), "[C15,C13,C16] supported header value rejected");
     } else {
-        assert!(matches!(r, Err(RequestError::HeaderError(HttpHeaderError::UnsupportedValue(_, _)))), "[C15,C13] unsupported header value must be reported as UnsupportedValue (tolerated)");
-        kani::cover!(true, "unsupported value");
+        assert!(matches!(r, Err(RequestError::HeaderError(HttpHeaderError::UnsupportedValue(_, _)))), "[C15,C13,C16] unsupported header value must be reported as UnsupportedValue (tolerated)");
     }
+    kani::cover!(want_ok || PK % 7 >= 5 || (PM % 4 == 0) != (PK % 7 == 0), "supported value");
+    kani::cover!(!want_ok, "unsupported value");
     assert!(h.expect == want_expect, "[C15,C13] expect flag");
     assert!(h.chunked == want_chunked, "[C15] chunked flag");
-    assert!(h.accept == want_accept, "[C15] accept media type");
+    assert!(h.accept == want_accept, "[C15,C16] accept media type");
     assert!(h.content_length == 0 && h.custom_entries.len() == 0);
     std::mem::forget(r);
     std::mem::forget(h);
@@ -456,63 +499,59 @@ fn c15_accept_encoding_small() {
     std::mem::forget(r);
 }
 
-// @harness props=C15,C02,C03 tiers=quick:N=5|N=7;thorough:N=0|N=1|N=2|N=3|N=4|N=5|N=6|N=7|N=8 unwind=N+12 cap=1800 mem=10 covers=3
+// @harness props=C15,C02,C03 tiers=quick:N=2,M=2|N=3,M=0;thorough:N=1,M=1|N=2,M=2|N=3,M=3|N=2,M=0|N=3,M=0|N=4,M=0 unwind=16 cap=1500 mem=10 covers=4
 // @fn Headers::parse_header_line Header::try_from Headers::insert_custom_header
-// @claim arbitrary short header lines: invalid UTF-8 => InvalidUtf8String; no colon => InvalidFormat; a name that is not a recognised header => kept as a custom entry with name and value trimmed (split at the first colon); the 6-letter recognised names that fit (expect/accept/server) follow their value rules; nothing else changes
-// @bounds every byte string of exactly N bytes (ASCII for the custom-entry comparison; non-ASCII valid UTF-8 only checked for acceptance)
-// @stubs std::str::from_utf8(model:RFC3629-validator)
+// @stubs std::str::from_utf8(model:RFC3629-validator) core::slice::memchr::memchr(model:first-index-loop)
+// @claim unrecognised header lines: invalid UTF-8 => InvalidUtf8String; no colon => InvalidFormat; `name:value` with an unrecognised name => kept as a custom entry with name and value trimmed, split at the first colon, nothing else changes
+// @bounds M>0: N arbitrary ASCII name bytes, ':', M arbitrary ASCII value bytes (no further restriction: further colons stay in the value); M=0: N arbitrary bytes without ':' (includes invalid UTF-8)
 #[kani::proof]
 #[kani::stub(std::str::from_utf8, crate::request::verif_kani::from_utf8_stub)]
 #[kani::stub(core::slice::memchr::memchr, crate::request::verif_kani::memchr_stub)]
 fn c15_generic_line() {
-    let v: [u8; PN] = kani::any();
-    let mut h = Headers::default();
-    let r = h.parse_header_line(&v[..]);
-    if !crate::request::verif_kani::utf8_valid(&v[..]) {
-        assert!(matches!(r, Err(RequestError::HeaderError(HttpHeaderError::InvalidUtf8String(_)))), "[C15,C02] non-UTF-8 header line must be rejected");
-        kani::cover!(PN == 0 || true, "invalid utf-8");
-    } else {
-        let mut colon = PN;
-        let mut i = 0;
-        while i < PN {
-            if v[i] == b':' && colon == PN {
-                colon = i;
-            }
+    const VL: usize = if PM == 0 { 0 } else { PM + 1 };
+    let mut line = [0u8; PN + VL];
+    let nb: [u8; PN] = kani::any();
+    kani::assume(no_colon(&nb));
+    let mut i = 0;
+    while i < PN {
+        line[i] = nb[i];
+        i += 1;
+    }
+    let vb: [u8; PM] = kani::any();
+    if PM > 0 {
+        kani::assume(all_ascii(&nb) && all_ascii(&vb));
+        line[PN] = b':';
+        i = 0;
+        while i < PM {
+            line[PN + 1 + i] = vb[i];
             i += 1;
         }
-        if colon == PN {
-            assert!(matches!(r, Err(RequestError::HeaderError(HttpHeaderError::InvalidFormat(_)))), "[C15,C02] header line without colon must be rejected");
-            kani::cover!(PN == 0 || true, "no colon");
-        } else if all_ascii(&v[..]) {
-            let (na, ne) = trim_ws(&v[..colon]);
-            let name = &v[na..ne];
-            let (va, ve) = trim_ws(&v[colon + 1..]);
-            let val = &v[colon + 1 + va..colon + 1 + ve];
-            let mut lower = [0u8; 8];
-            let mut k = 0;
-            while k < name.len() && k < 8 {
-                let c = name[k];
-                lower[k] = if c >= b'A' && c <= b'Z' { c + 32 } else { c };
-                k += 1;
-            }
-            let ln = &lower[..name.len()];
-            if eqb(ln, b"server") {
-                assert!(r.is_ok() && h.custom_entries.len() == 0);
-            } else if eqb(ln, b"expect") || eqb(ln, b"accept") {
-                // no supported value fits
-                assert!(matches!(r, Err(RequestError::HeaderError(HttpHeaderError::UnsupportedValue(_, _)))), "[C15] unsupported value must be tolerated (UnsupportedValue)");
-                assert!(h.custom_entries.len() == 0);
-            } else {
-                assert!(r.is_ok(), "[C15] unknown header must be kept as a custom entry");
-                assert!(h.custom_entries.len() == 1, "[C15] custom entry not stored");
-                let (k0, v0) = h.custom_entries.nth(0).unwrap();
-                assert!(eqb(k0.as_bytes(), name), "[C15] custom header name not trimmed / not verbatim");
-                assert!(eqb(v0.as_bytes(), val), "[C15] custom header value not trimmed / not verbatim");
-                kani::cover!(PN < 4 || (name.len() + 2 < colon && val.len() > 0), "padded custom header");
-            }
-            assert!(h.content_length == 0 && !h.expect && !h.chunked);
-        }
     }
+    let mut h = Headers::default();
+    let r = h.parse_header_line(&line);
+    if PM == 0 {
+        if !crate::request::verif_kani::utf8_valid(&line) {
+            assert!(matches!(r, Err(RequestError::HeaderError(HttpHeaderError::InvalidUtf8String(_)))), "[C15,C02] non-UTF-8 header line must be rejected");
+        } else {
+            assert!(matches!(r, Err(RequestError::HeaderError(HttpHeaderError::InvalidFormat(_)))), "[C15,C02] header line without colon must be rejected");
+        }
+        assert!(h.custom_entries.len() == 0);
+    } else {
+        // names this short cannot be one of the recognised headers (shortest: 6 letters)
+        let (na, ne) = trim_ws(&nb);
+        let (va, ve) = trim_ws(&vb);
+        assert!(r.is_ok(), "[C15] unknown header must be kept as a custom entry");
+        assert!(h.custom_entries.len() == 1, "[C15] custom entry not stored");
+        let (k0, v0) = h.custom_entries.nth(0).unwrap();
+        assert!(eqb(k0.as_bytes(), &nb[na..ne]), "[C15] custom header name not trimmed / not verbatim");
+        assert!(eqb(v0.as_bytes(), &vb[va..ve]), "[C15] custom header value not trimmed / not verbatim");
+    }
+    let valid = crate::request::verif_kani::utf8_valid(&line);
+    kani::cover!(PM > 0 || !valid, "invalid utf-8");
+    kani::cover!(PM > 0 || valid, "no colon");
+    kani::cover!(PM == 0 || is_ws(at(&nb[..], 0)), "padded name");
+    kani::cover!(PM < 2 || at(&vb[..], 0) == b':', "second colon stays in the value");
+    assert!(h.content_length == 0 && !h.expect && !h.chunked);
     std::mem::forget(r);
     std::mem::forget(h);
 }
